@@ -89,5 +89,7 @@ def run(chk):
     chk.assumptions += ["TLC/SANY/Json", "per-link FIFO network (the property's quantifier)", "logical stamps = positions in the global commit order of the gated execution",
                         "operations pending at the end may take effect or not"]
     chk.gaps.append("real bootstrap clients over relaxed mailboxes are not driven by this check")
+    chk.gaps.append("histories with a leader change right after overwriting Puts of one key are rare in seeded schedules: a store that goes stale on followers only "
+                    "(seed C09-A) is decided by C08 (ApplyLogOK in walk successor states) and C02 (step conformance), not by the histories judged here")
     return chk.finish(rule="client histories (2-3 concurrent clients, 2-3 keys, Put/Get mix chosen by the spec's RequestsChannel) of seeded adversarial executions of the generated raftkvs archetypes, "
                            "each judged by TLC on KVLin.tla; plus histories of TLC simulation behaviours replayed through the generated code")
